@@ -124,7 +124,10 @@ type Canary struct {
 
 	descriptors map[string]int32
 
-	buffer *rbuf.FixedSizeRingBuf
+	// bufferMutex guards buffer: frames are queued by the receive loop and
+	// by the connections' handler goroutines
+	bufferMutex sync.Mutex
+	buffer      *rbuf.FixedSizeRingBuf
 
 	stateTable StateTable
 
@@ -804,8 +807,10 @@ func (c *Canary) send(state *State, payload []byte, flags tcp.Flag) error {
 
 	data = append(data2, data...)
 
+	c.bufferMutex.Lock()
 	c.buffer.Write([]byte{byte((len(data) & 0xFF00) >> 8), byte(len(data) & 0xFF)})
 	c.buffer.Write(data)
+	c.bufferMutex.Unlock()
 
 	fd := c.descriptors[ae.Interface]
 
@@ -988,10 +993,14 @@ func (c *Canary) transmit(fd int32) error {
 	for {
 		buff := [2]byte{}
 
+		c.bufferMutex.Lock()
+
 		_, err := c.buffer.ReadAndMaybeAdvance(buff[:], true)
 		if err == io.EOF {
+			c.bufferMutex.Unlock()
 			break
 		} else if err != nil {
+			c.bufferMutex.Unlock()
 			log.Errorf("Error reading buffer 1: %s", err)
 			return err
 		}
@@ -1000,6 +1009,9 @@ func (c *Canary) transmit(fd int32) error {
 
 		buffer := make([]byte, len)
 		n, err := c.buffer.Read(buffer)
+
+		c.bufferMutex.Unlock()
+
 		if err != nil {
 			log.Errorf("Error reading buffer 2: %s", err)
 			return err
